@@ -106,9 +106,10 @@ Assumptions (trusted base)
       or callables supplied from outside; dict/list/callable ARGUMENTS contain the
       kinds of values the code base itself passes at its call sites
     * parameter and return annotations naming primitives, containers of
-      primitives, code-base classes, XPath, _Element are upper bounds of the
-      run-time types (never used to drop an origin, except int/bool/None/Decimal/
-      datetime parameters, from which no tree is reachable)
+      primitives, code-base classes, XPath, _Element, and local declarations
+      `var: Class`, are upper bounds of the run-time types (never used to drop an
+      origin, except for int/bool/bytes/None/Decimal/datetime parameters and
+      results, from which no tree is reachable: an lxml smart string is a str)
     * the lxml base-fact list above is complete; stdlib/builtin functions do not
       call back into odfdo except through the modelled protocols (str, repr,
       format, comparison, iteration, key=/callback arguments)
@@ -118,28 +119,35 @@ Assumptions (trusted base)
     * exceptions are not tracked (a write before a raise is still a write)
     * container *bytes* parts (Container.set_part) are outside this analysis.
 
-Results on the unchanged tree (measured by the run, see `report()`)
-    307 entry points: 60 pure, 247 may-mutate, 0 unknown.  Two genuine defects
-    poison most of them, both confirmed by native replay:
-      F1  MDTable._md_format calls self.optimize_width() on the LIVE table.
-          Reached by Document.to_markdown and, because ListItem.__str__ is
-          implemented with the Markdown collector, by str()/inner_text/search/
-          match/get_*(content=...) of ANY element whose subtree may contain
-          list-item > p > frame > text-box > table.
-      F2  MetaAutoReload.__init__ / MetaTemplate.__init__ assign self.actuate /
-          .show / .type OUTSIDE `if self._do_init:`: wrapping an existing node
-          (Element.from_tag, hence every get_element*) rewrites its attributes.
-    `analyze()` therefore also runs a what-if analysis (`.modulo`) in which these
-    6 statements (KNOWN_FINDINGS) are assumed removed: 303 pure, 4 may-mutate
-    (88 of the 243 conditional ones depend only on F2).  The remaining four are
-    genuine too: Element.get_variable_decls / get_user_field_decls create the
-    container they look for, Table.get_cell(clone=False, keep_repeated=False)
-    clears `repeated` on the live cell, XmlPart.serialize(pretty=True) indents the
-    live tree (the last two are pure with default arguments).
-    Row.minimized_width only rebuilds Python caches: XML-pure.
+Results (measured by the run, see `report()`)
+    Current tree (after the "fix:" commits): 307 entry points, 304 pure,
+    3 may-mutate, 0 unknown, one run of ~25 s, nothing assumed.  The three are
+    genuine (confirmed by native replay): Element.get_variable_decls /
+    get_user_field_decls create the container they look for; Table.get_cell(
+    clone=False, keep_repeated=False) clears `repeated` on the live cell (pure
+    with default arguments).  Row.minimized_width only rebuilds Python caches:
+    XML-pure.
+    History: on the tree before the fixes the same analysis gave 60 pure / 247
+    may-mutate because of two genuine defects it exposed (F1: MDTable._md_format
+    called optimize_width() on the live table, reached from str() of anything
+    containing a list item; F2: MetaAutoReload/MetaTemplate.__init__ wrote
+    attributes when wrapping an existing node, i.e. in every from_tag) plus
+    XmlPart.serialize(pretty=True) indenting the live tree; all fixed upstream.
+    A what-if run (`assume_pure=` / --assume-removed) is still available but the
+    default run has none.
+    Precision note: a receiver of unknown type resolves `.clone` to every `clone`
+    getter including Document.clone; when Document.clone started to push
+    `part.serialize()` (bytes) into the fresh container, the bytes carried the
+    origin of the document (every value could be an lxml smart string), the result
+    of `x.clone` stopped being fresh-only and `cell = cell.clone; cell.repeated =
+    None` in Row.traverse looked like a live write (and fed itself through
+    Document.clone -> ... -> Table.get_formatted_text -> Row.traverse).  Fixed
+    soundly twice: bytes/int/bool/None-annotated results carry no origin (a smart
+    string is a str), and a local declaration `cell: Cell` is honoured as the upper
+    bound of the variable so that only Cell.clone / Element.clone are candidates.
 
-Self-test mutants (tools/effects_selftest.py, through tools/mutrun.py; verdicts
-of the what-if run)
+Self-test mutants (tools/effects_selftest.py, through tools/mutrun.py; default
+run, nothing assumed)
     (a) table.py `_get_formatted_text_rst`: `table = self.clone` -> `table = self`
         FLIPS  Table.get_formatted_text  pure -> may-mutate (rstrip on the live table)
     (b) element.py `serialize`: `native = deepcopy(self.__element)` ->
@@ -509,11 +517,12 @@ def _relevant_params(node, params):
 
 
 def _ann_not_string(node):
-    """True if the annotation only names non-string primitive types."""
+    """True if the annotation only names primitive types other than str (an lxml
+    "smart string" is a str subclass; bytes/int/bool/None/Decimal ... reach no tree)."""
     if node is None:
         return False
     for n in ast.walk(node):
-        if isinstance(n, ast.Name) and (n.id not in PRIM_ANN or n.id in ("str", "bytes")):
+        if isinstance(n, ast.Name) and (n.id not in PRIM_ANN or n.id == "str"):
             return False
         if isinstance(n, ast.Constant) and n.value is not None:
             return False
@@ -938,6 +947,7 @@ class FA:
         self.nonlocals: set = set()
         self.gw_protected: frozenset = EMPTY
         self.alias: dict = {}
+        self.local_ann: dict = {}
 
     # ---- entry
     def run(self):
@@ -961,7 +971,9 @@ class FA:
             # a return annotation naming plain data (str, int, tuple[int, ...]) is
             # trusted for the *type* of the result; its origins are kept (smart strings)
             rt, ri = self.ann_types(fi.node.returns)
-            if rt and rt <= {"prim", "cont"} and ("cont" not in rt or (ri and ri <= {"prim"})):
+            if rt == {"prim"} and _ann_not_string(fi.node.returns):
+                ret = AV(EMPTY, rt, EMPTY, ret.c)  # bytes / int / bool / None: plain data
+            elif rt and rt <= {"prim", "cont"} and ("cont" not in rt or (ri and ri <= {"prim"})):
                 ret = AV(ret.o, rt, ri, ret.c)
             else:
                 # annotations naming code-base classes are upper bounds: narrow
@@ -1150,6 +1162,11 @@ class FA:
         self.sum.allenv[var] = join(self.sum.allenv.get(var), av)
 
     def bind(self, env, var, av):
+        ann = self.local_ann.get(var)
+        if ann is not None and (av.t - {"prim"}):
+            # `var: Class` declared in this function: upper bound of what var holds
+            nt = self.narrow(AV(av.o, av.t - {"prim"}, av.i, av.c), ann).t | (av.t & {"prim"})
+            av = AV(av.o, nt, av.i, av.c)
         env[var] = av
         self.note(var, av)
         if var in self.nonlocals and var in self.closure:
@@ -1280,6 +1297,10 @@ class FA:
         return env
 
     def s_AnnAssign(self, st, env):
+        if isinstance(st.target, ast.Name) and self.fi.kind != "module":
+            t, _ = self.ann_types(st.annotation)
+            if t and all(x == "prim" or x.startswith("inst:") for x in t) and (t - {"prim"}):
+                self.local_ann[st.target.id] = set(t)
         if st.value is None:
             return env
         av = self.eval(st.value, env)
@@ -3235,38 +3256,27 @@ class Analysis:
             "entry_points": len(self.entry_points),
             "counts": counts,
             "counts_modulo_known_findings": mcounts,
-            "known_findings_assumed_removed": [list(k) for k in KNOWN_FINDINGS] if mcounts else None,
+            "assumed_removed": sorted(list(k) for k in self.assume_pure),
             "entries": rows,
         }
 
 
-KNOWN_FINDINGS = [
-    # C15 finding 1: the Markdown export of a table shrinks the LIVE table
-    # (reached by to_markdown, and by str()/search()/match() of anything that
-    # contains a list item, because ListItem.__str__ uses the Markdown export)
-    ("mixin_md:MDTable._md_format", "optimize_width"),
-    # C15 finding 2: wrapping an EXISTING <meta:auto-reload> / <meta:template> node
-    # (Element.from_tag, any get_element*) overwrites its xlink attributes: the
-    # assignments sit outside the `if self._do_init:` guard
-    ("meta_auto_reload:MetaAutoReload.__init__", "actuate="),
-    ("meta_auto_reload:MetaAutoReload.__init__", "show="),
-    ("meta_auto_reload:MetaAutoReload.__init__", "type="),
-    ("meta_template:MetaTemplate.__init__", "actuate="),
-    ("meta_template:MetaTemplate.__init__", "type="),
-]
+# Historical: on the tree before the "fix:" commits two defects (F1: MDTable._md_format
+# called self.optimize_width() on the live table; F2: MetaAutoReload/MetaTemplate.__init__
+# assigned attributes outside `if self._do_init:`) had to be assumed removed to see the
+# rest.  Both are fixed upstream now, the default run assumes nothing.  The what-if
+# mechanism itself stays available: analyze(assume_pure=[("mod:Class.func", "call"),
+# ("mod:Class.func", "attr=")]) / --assume-removed FUNC:CALL.
+KNOWN_FINDINGS: list = []
 
 
-def analyze(src_root=None, strict_tostring=False, verbose=False, assume_pure=None, modulo_known=True):
-    """Run the effect inference.  With modulo_known, a second what-if run in which
-    the calls listed in KNOWN_FINDINGS are assumed removed is attached as
-    `.modulo`: it tells the entry points that are may-mutate ONLY through the known
-    finding from the ones that have another reason."""
+def analyze(src_root=None, strict_tostring=False, verbose=False, assume_pure=None, modulo_known=False):
+    """Run the effect inference (one run, nothing assumed).  `assume_pure` is a list of
+    (function, "call") / (function, "attr=") statements treated as removed (what-if)."""
     an = Analysis(src_root, strict_tostring, verbose, assume_pure).run()
     an.modulo = an.modulo_f2 = None
-    if modulo_known and not assume_pure:
+    if modulo_known and not assume_pure and KNOWN_FINDINGS:
         an.modulo = Analysis(src_root, strict_tostring, verbose, KNOWN_FINDINGS).run()
-        f2 = [k for k in KNOWN_FINDINGS if k[0].startswith("meta_")]
-        an.modulo_f2 = Analysis(src_root, strict_tostring, verbose, f2).run()
     return an
 
 
@@ -3288,11 +3298,13 @@ def main(argv=None):
     ap.add_argument("--strict-tostring", action="store_true", help="treat etree.tostring as a potential writer")
     ap.add_argument("--assume-removed", action="append", default=[], metavar="FUNC:CALL",
                     help="what-if: treat the call .CALL() inside FUNC as removed")
-    ap.add_argument("--no-modulo", action="store_true", help="skip the what-if run for the known finding")
+    ap.add_argument("--no-modulo", action="store_true", help="(kept for compatibility, no effect)")
     ap.add_argument("--summary", help="print the summary of the functions whose name contains this substring")
     args = ap.parse_args(argv)
     assume = [tuple(x.rsplit(":", 1)) for x in args.assume_removed] or None
-    an = analyze(args.src_root, args.strict_tostring, assume_pure=assume, modulo_known=not args.no_modulo)
+    an = analyze(args.src_root, args.strict_tostring, assume_pure=assume)
+    if assume:
+        print("# WHAT-IF run, statements assumed removed:", assume)
     rep = an.report()
     for row in rep["entries"]:
         if args.entry and args.entry not in row["entry"]:
